@@ -70,7 +70,7 @@ def run_obligation(task):
     res = {"name": ob["name"], "harness": ob["harness"], "bounds": ob.get("bounds", ""), "params": ob.get("params", {})}
     t0 = time.time()
     import faulthandler
-    faulthandler.dump_traceback_later(task["time_limit_s"] + 120, exit=True)
+    faulthandler.dump_traceback_later(task["time_limit_s"] + 90, exit=True, file=open(os.devnull, "w"))
     try:
         eng = Engine(_IR, unwind=ob.get("unwind", 70), solver_timeout_ms=int(task["solver_timeout_s"] * 1000))
         intrinsics.install(eng)
@@ -116,8 +116,22 @@ def run_obligation(task):
             done = [s for kind, _, s in eng.results if kind == "returned"]
             rnd = random.Random(task.get("seed", 0))
             rnd.shuffle(done)
+            import z3 as _z3
             for s in done[:want]:
-                if eng.solver.check(s.pc) == "sat":
+                # diversify: pin a few random symbols to random values when the path condition allows it
+                extra = []
+                syms = [x for x in s.syms if x[2] != "bool"]
+                rnd.shuffle(syms)
+                for name, e, bits in syms[:8]:
+                    if isinstance(e, _z3.BitVecRef):
+                        c = e == _z3.BitVecVal(rnd.getrandbits(e.size()), e.size())
+                    elif isinstance(e, _z3.ArithRef):
+                        c = e == rnd.getrandbits(min(int(bits), 40))
+                    else:
+                        continue
+                    if eng.solver.check(s.pc, _z3.And(*(extra + [c]))) == "sat":
+                        extra.append(c)
+                if eng.solver.check(s.pc, _z3.And(*extra) if extra else None) == "sat":
                     vecs.append(eng.model_values(s, eng.solver.last_model))
         res["vectors"] = vecs
         if eng.vector is not None:
@@ -146,7 +160,7 @@ def run_parallel(tasks):
         for f, i in futs.items():
             t = tasks[i]
             try:
-                out[i] = f.result(timeout=t["time_limit_s"] + 180)
+                out[i] = f.result(timeout=t["time_limit_s"] + 150)
             except Exception as e:
                 out[i] = {"name": t["ob"]["name"], "harness": t["ob"]["harness"], "error": "worker failed: %s %s" % (type(e).__name__, e)}
     return out
@@ -279,7 +293,7 @@ def check(prop, tier, only=None):
                 status["inconclusive"].append("harness %s not found in IR" % o["harness"])
         if status["inconclusive"]:
             return finish(prop, tier, seed, spec, [], status, t_start, {}, evidence_path)
-        time_limit = getattr(spec, "TIME_LIMIT_S", {}).get(tier, 600 if tier == "quick" else 3600)
+        time_limit = getattr(spec, "TIME_LIMIT_S", {}).get(tier, 420 if tier == "quick" else 3600)
         sto = getattr(spec, "SOLVER_TIMEOUT_S", {}).get(tier, 60 if tier == "quick" else 600)
         nvec = 2 if tier == "quick" else 6
         tasks = [{"ob": o, "time_limit_s": o.get("time_limit_s", time_limit), "solver_timeout_s": sto, "want_vectors": nvec, "seed": seed}
@@ -352,7 +366,8 @@ def check(prop, tier, only=None):
                 n = nat[i]
                 reproduced = ("error" not in n) and not n.get("skipped") and (
                     (kind == "cex" and x["name"] in (n.get("failures") or [])) or (kind == "panic" and "panic" in n))
-                rp = os.path.join(ROOT, "evidence", "replays", "%s_%s_%d.json" % (prop, re.sub(r"\W+", "_", o["name"]), i))
+                rp = os.path.join(ROOT, "evidence", "replays", "%s_%s_%s_%d.json" % (
+                    prop, re.sub(r"\W+", "_", o["name"])[:24], hashlib.sha1((o["name"] + json.dumps(o.get("params", {}))).encode()).hexdigest()[:8], i))
                 os.makedirs(os.path.dirname(rp), exist_ok=True)
                 json.dump({"property": prop, "obligation": o["name"], "harness": o["harness"], "params": o.get("params", {}),
                            "values": native_cases[i]["values"], "what": x.get("name") or x.get("info"), "native_result": n,
